@@ -183,7 +183,8 @@ pub fn get_property(obj: &JsValue, key: &str) -> Result<JsValue, JsError> {
         .as_object()
         .ok_or_else(|| JsError::type_error("Cannot get property of non-object"))?;
 
-    let prop_key = value::PropertyKey::String(JsString::from(key));
+    // Canonical key (array-index spellings become PropertyKey::Index, like in scripts)
+    let prop_key = value::PropertyKey::from_value(&JsValue::String(JsString::from(key)));
     let value = {
         let borrowed = object.borrow();
         borrowed.get_property(&prop_key)
@@ -275,7 +276,7 @@ pub fn set_property(obj: &JsValue, key: &str, value: JsValue) -> Result<(), JsEr
         .as_object()
         .ok_or_else(|| JsError::type_error("Cannot set property on non-object"))?;
 
-    let prop_key = value::PropertyKey::String(JsString::from(key));
+    let prop_key = value::PropertyKey::from_value(&JsValue::String(JsString::from(key)));
     object.borrow_mut().set_property(prop_key, value);
     Ok(())
 }
